@@ -92,6 +92,8 @@ func (vout) IsTerminal() bool  { return false }
 type vos struct {
 	args   []string
 	files  vfs
+	fsys   fs.FS  // non-nil: the file system to use instead of `files` (real.go: cmd/fq's own os.Open file system)
+	config string // ConfigDir, "/config" if empty
 	stdin  []byte
 	stdout *bytes.Buffer
 	stderr *bytes.Buffer
@@ -110,8 +112,18 @@ func (o *vos) Environ() []string {
 	return []string{"NO_COLOR=1", "NO_DECODE_PROGRESS=1", "CONFIG_DIR=/config"}
 }
 func (o *vos) Args() []string                                   { return o.args }
-func (o *vos) ConfigDir() (string, error)                       { return "/config", nil }
-func (o *vos) FS() fs.FS                                        { return o.files }
+func (o *vos) ConfigDir() (string, error) {
+	if o.config != "" {
+		return o.config, nil
+	}
+	return "/config", nil
+}
+func (o *vos) FS() fs.FS {
+	if o.fsys != nil {
+		return o.fsys
+	}
+	return o.files
+}
 func (o *vos) History() ([]string, error)                       { return nil, nil }
 func (o *vos) Readline(opts interp.ReadlineOpts) (string, error) { return "", io.EOF }
 
@@ -124,7 +136,13 @@ type runResult struct {
 
 // runMain = pkg/cli/cli.go Main with the virtual OS: exit code 0 on nil, Exiter's code, else 1.
 func runMain(argv []string, files vfs, stdin []byte) runResult {
-	o := &vos{args: append([]string{"fq"}, argv...), files: files, stdin: stdin, stdout: &bytes.Buffer{}, stderr: &bytes.Buffer{}}
+	return runMainOn(argv, files, nil, "", stdin)
+}
+
+// runMainOn: fsys != nil replaces the virtual files (everything else of the OS stays virtual: stdin, stdout, stderr,
+// environment, terminal)
+func runMainOn(argv []string, files vfs, fsys fs.FS, config string, stdin []byte) runResult {
+	o := &vos{args: append([]string{"fq"}, argv...), files: files, fsys: fsys, config: config, stdin: stdin, stdout: &bytes.Buffer{}, stderr: &bytes.Buffer{}}
 	var res runResult
 	msg, panicked := hlib.Catch(func() string {
 		i, err := interp.New(o, interp.DefaultRegistry)
